@@ -72,3 +72,18 @@ Theorem C03_lock_scopes_are_the_reviewed_ones :
   GenLocks.list_dofreenode_calls_unguarded = [].
 Proof. repeat split; reflexivity. Qed.
 Print Assumptions C03_lock_scopes_are_the_reviewed_ones.
+
+(* the SpinLock mutex policy (eventpolicies.h): with lock()/unlock() as they are in the header (tie A,
+   GenSpin), any number of threads, every schedule: at most one thread holds the lock *)
+From EV Require SpinModel.
+From EV.gen Require GenSpin.
+
+Theorem C03_spinlock_as_in_the_header_excludes :
+  forall n sched,
+    SpinModel.ncs (SpinModel.pcs (SpinModel.srun GenSpin.lock_spins_while_set GenSpin.unlock_clears
+                                                 (SpinModel.sinit n (negb GenSpin.flag_starts_clear)) sched)) <= 1.
+Proof. exact SpinModel.spinlock_as_in_the_header_excludes. Qed.
+Print Assumptions C03_spinlock_as_in_the_header_excludes.
+
+Theorem C03_spinlock_memory_orders : GenSpin.lock_order = GenSpin.acquire /\ GenSpin.unlock_order = GenSpin.release.
+Proof. split; reflexivity. Qed.
